@@ -34,21 +34,28 @@
    * FinalLimitPlan over FinalOrderPlan: the limit node pulls the order node lazily
      (Model/LimitLazy.v); the order node as a pulled child is [onext] / [obatch]: the first call
      drains the child and calls Order.next / Order.batch on the rows, later calls only pop.
-   * AggregatePlan.prepare / prepareBatch: per scanned pair (row mode) / per scanned chunk
-     (batch mode: batchGetAggrKeys evaluates the GROUP BY expressions with ExecuteBatch on the
-     whole chunk) the values Model/Aggregate.v receives as [pobs] are produced by
-     [obs_row] / [obs_batch]; the loop over the child is again ScanProj's drain with the
-     observation in the place of the projection.  The instance at the bottom evaluates ALL three
-     groups of expressions on EVERY pair; Go evaluates the non-aggregate fields only on the
-     first pair of a group and count() never evaluates its argument: a statement on which such
-     a skipped evaluation would fail is outside this composition (the twin answers with the
-     error, Go does not fail).
-   * An execution error while completing the aggregates (x / 0, unencodable float) is
-     [Err EOther] for the whole statement, as in Model/Aggregate.v. *)
+   * AggregatePlan.prepare / prepareBatch: the loop over the child is Model/AggregateLazy.v's
+     [sdrain_row] / [sdrain_batch] (the scan of Model/ScanProj.v with, per pair / per chunk, what
+     the plan evaluates: [obs_row] / [obs_batch], which depend on the keys of aggrMap seen so far).
+     The instance at the bottom evaluates EXACTLY what the Go code evaluates, in its order
+     (Model/AggregateLazy.v, header): GROUP BY expressions on every pair (batch mode: with
+     ExecuteBatch on the whole chunk first), the non-aggregate fields on the first pair of a
+     group only, the first argument of every aggregate call except count on every pair, nothing
+     for count.  The values reach Model/Aggregate.v as [pobs] (absent / nil where nothing was
+     evaluated; it never looks there).
+   * Completing the rows: without a pushed-down LIMIT every group is completed (an execution
+     error -- x / 0, unencodable float -- is [Err EOther] for the statement; FinalOrderPlan
+     drains the AggregatePlan completely); with the LIMIT pushed into the plan the rows are
+     completed as Next / Batch ask for them (Model/AggregateLazy.v [adrain_row] /
+     [adrain_batch]): a group that would fail beyond what the limit consumes is never completed.
+   * The previous, EAGER composition (all three groups of expressions on every pair, every group
+     completed) is kept at the bottom as [select_agg_row_eager] / [select_agg_batch_eager]:
+     wherever it answers with rows the lazy composition answers with the same rows
+     (Proofs/SelectPlansProofs.v [select_agg_row_refines] / [select_agg_batch_refines]). *)
 From Coq Require Import List String ZArith Bool Arith.
 Import ListNotations.
 From KV Require Import Base.Bytes Model.Ast Model.Value Model.Eval Model.EvalVec Model.ScanProj
-                       Model.LimitLazy.
+                       Model.LimitLazy Model.AggregateLazy.
 From KV Require Model.Limit Model.Order Model.Aggregate Spec.Group.
 Local Open Scope nat_scope.
 Local Open Scope list_scope.
@@ -178,8 +185,11 @@ Variable bits_f : F -> bytes.
 Variable json_f : F -> option bytes.
 Variable parse_f : bytes -> option F.
 Variable json_s : bytes -> bytes.
-Variable obs_row : P -> res (Group.pobs F).             (* what prepare evaluates on one pair *)
-Variable obs_batch : list P -> res (list (Group.pobs F)).  (* what prepareBatch evaluates on one chunk *)
+Variable T : Type.                                       (* the keys of aggrMap *)
+Variable t0 : T.                                         (* ... after Init *)
+(* what prepare evaluates on one pair / prepareBatch on one chunk, given the keys seen so far *)
+Variable obs_row : Group.plan F -> T -> P -> res (Group.pobs F * T).
+Variable obs_batch : Group.plan F -> T -> list P -> res (list (Group.pobs F) * T).
 Variable aconv : list (Group.value F) -> Order.row.     (* rendering of a result row *)
 (* ---- FinalOrderPlan *)
 Variable parse_int parse_float : bytes -> option Z.
@@ -188,13 +198,11 @@ Notation slots := (list (option P)).
 
 (* AggregatePlan(scan) drained by Next / by Batch: rows as Model/Aggregate.v returns them *)
 Definition agg_row (p : Group.plan F) (sl : slots) : res (list (list (Group.value F))) :=
-  do obs <- drain_row frow obs_row sl;
-  of_exec (Aggregate.run_row fadd fsub fmul fdiv fltb fis0 of_Z to_Z fmt_f bits_f json_f parse_f json_s
-                             true true p obs).
+  do obs <- sdrain_row frow (obs_row p) t0 sl;
+  lrun_row fadd fsub fmul fdiv fltb fis0 of_Z to_Z fmt_f bits_f json_f parse_f json_s p obs.
 Definition agg_batch (B : nat) (p : Group.plan F) (sl : slots) : res (list (list (Group.value F))) :=
-  do chunks <- drain_batch fbatch obs_batch B sl;
-  of_exec (Aggregate.run_batch fadd fsub fmul fdiv fltb fis0 of_Z to_Z fmt_f bits_f json_f parse_f json_s
-                               true true p B chunks).
+  do chunks <- sdrain_batch fbatch (obs_batch p) B t0 sl;
+  lrun_batch fadd fsub fmul fdiv fltb fis0 of_Z to_Z fmt_f bits_f json_f parse_f json_s p B chunks.
 
 (* the two children an order node can have, as drains *)
 Definition proj_rows (sl : slots) : res (list Order.row) := drain_row frow prow sl.
@@ -391,8 +399,42 @@ Fixpoint evals_row (es : list expr) (kv : kvpair) : res (list gvalue) :=
       do gs <- evals_row es' kv; Ok (g :: gs)
   end.
 
-(* [gs]: the GROUP BY expressions; [ks]: the non-aggregate select fields; [args]: the first
-   arguments of the aggregate calls, in the order of Model/Aggregate.v's [c_arg] indices *)
+(* ---- what the AggregatePlan evaluates (Model/AggregateLazy.v [lobs_row] / [lobs_batch] with the
+   evaluator twins).  [gs]: the GROUP BY expressions; [ks]: the non-aggregate select fields;
+   [args]: the first arguments of the aggregate calls, in the order of Model/Aggregate.v's [c_arg]
+   indices = the order updateRowAggrFunc visits the calls *)
+
+(* updateRowAggrFunc: Execute of Args[0] for the calls [need] selects, nil for the others *)
+Fixpoint evals_need (need : nat -> bool) (i : nat) (es : list expr) (kv : kvpair) : res (list gvalue) :=
+  match es with
+  | [] => Ok []
+  | e :: es' =>
+      if need i then
+        do v <- eval fo re_match (fst kv) (snd kv) e;
+        do g <- gval v;
+        do gs <- evals_need need (Datatypes.S i) es' kv; Ok (g :: gs)
+      else
+        do gs <- evals_need need (Datatypes.S i) es' kv; Ok (Group.VNil :: gs)
+  end.
+
+(* batchGetAggrKeys: ExecuteBatch per GROUP BY expression, then aggrKeyBytes pair by pair *)
+Fixpoint gvals_all (grows : list (list value)) : res (list (list gvalue)) :=
+  match grows with
+  | [] => Ok []
+  | grow :: grows' => do g <- gvals grow; do gs <- gvals_all grows'; Ok (g :: gs)
+  end.
+Definition c_batch_g (gs : list expr) (ch : list kvpair) : res (list (list gvalue)) :=
+  do grows <- project_batch fo re_match gs ch; gvals_all grows.
+
+Definition c_lobs_row (gs ks args : list expr) (p : Group.plan (F fo)) (t : seen) (kv : kvpair)
+  : res (Group.pobs (F fo) * seen) :=
+  lobs_row (f_fmt fo) (a_bits ag) (evals_row gs) (evals_row ks) (fun need => evals_need need 0 args) p t kv.
+Definition c_lobs_batch (gs ks args : list expr) (p : Group.plan (F fo)) (t : seen) (ch : list kvpair)
+  : res (list (Group.pobs (F fo)) * seen) :=
+  lobs_batch (f_fmt fo) (a_bits ag) (c_batch_g gs) (evals_row ks) (fun need => evals_need need 0 args) p t ch.
+
+(* ---- the EAGER observation (the previous composition, kept for the refinement theorems): all
+   three groups of expressions on every pair *)
 Definition c_obs_row (gs ks args : list expr) (kv : kvpair) : res (Group.pobs (F fo)) :=
   do g <- evals_row gs kv;
   do k <- evals_row ks kv;
@@ -438,14 +480,14 @@ Variable parse_int parse_float : bytes -> option Z.    (* strconv, for compareNu
 Definition select_shape_row (q : cstmt) (sh : shape) (sl : list (option kvpair)) : res (list Order.row) :=
   run_shape_row kvpair (sel_frow fo re_match (q_where q)) (c_prow (q_fields q))
     (F fo) (fadd fo) (fsub fo) (fmul fo) (fdiv fo) (fltb fo) (a_is0 ag) (f_of_Z fo) (a_to_Z ag) (f_fmt fo)
-    (a_bits ag) (a_json_f ag) (a_parse ag) (a_json_s ag)
-    (c_obs_row (q_group q) (q_keys q) (q_args q)) (aconv_row fo (a_fbits ag)) parse_int parse_float (q_stmt q) sh sl.
+    (a_bits ag) (a_json_f ag) (a_parse ag) (a_json_s ag) seen []
+    (c_lobs_row (q_group q) (q_keys q) (q_args q)) (aconv_row fo (a_fbits ag)) parse_int parse_float (q_stmt q) sh sl.
 
 Definition select_shape_batch (B : nat) (q : cstmt) (sh : shape) (sl : list (option kvpair)) : res (list Order.row) :=
   run_shape_batch kvpair (filter_batch fo re_match true (q_where q)) (c_pbatch (q_fields q))
     (F fo) (fadd fo) (fsub fo) (fmul fo) (fdiv fo) (fltb fo) (a_is0 ag) (f_of_Z fo) (a_to_Z ag) (f_fmt fo)
-    (a_bits ag) (a_json_f ag) (a_parse ag) (a_json_s ag)
-    (c_obs_batch (q_group q) (q_keys q) (q_args q)) (aconv_row fo (a_fbits ag)) parse_int parse_float B (q_stmt q) sh sl.
+    (a_bits ag) (a_json_f ag) (a_parse ag) (a_json_s ag) seen []
+    (c_lobs_batch (q_group q) (q_keys q) (q_args q)) (aconv_row fo (a_fbits ag)) parse_int parse_float B (q_stmt q) sh sl.
 
 (* the statement through buildFinalPlan *)
 Definition select_stmt_row (q : cstmt) (sl : list (option kvpair)) : res (list Order.row) :=
@@ -459,13 +501,27 @@ Definition select_agg_row (q : cstmt) (p : Group.plan (F fo)) (sl : list (option
   : res (list (list gvalue)) :=
   agg_row kvpair (sel_frow fo re_match (q_where q))
     (F fo) (fadd fo) (fsub fo) (fmul fo) (fdiv fo) (fltb fo) (a_is0 ag) (f_of_Z fo) (a_to_Z ag) (f_fmt fo)
-    (a_bits ag) (a_json_f ag) (a_parse ag) (a_json_s ag)
-    (c_obs_row (q_group q) (q_keys q) (q_args q)) p sl.
+    (a_bits ag) (a_json_f ag) (a_parse ag) (a_json_s ag) seen []
+    (c_lobs_row (q_group q) (q_keys q) (q_args q)) p sl.
 Definition select_agg_batch (B : nat) (q : cstmt) (p : Group.plan (F fo)) (sl : list (option kvpair))
   : res (list (list gvalue)) :=
   agg_batch kvpair (filter_batch fo re_match true (q_where q))
     (F fo) (fadd fo) (fsub fo) (fmul fo) (fdiv fo) (fltb fo) (a_is0 ag) (f_of_Z fo) (a_to_Z ag) (f_fmt fo)
-    (a_bits ag) (a_json_f ag) (a_parse ag) (a_json_s ag)
-    (c_obs_batch (q_group q) (q_keys q) (q_args q)) B p sl.
+    (a_bits ag) (a_json_f ag) (a_parse ag) (a_json_s ag) seen []
+    (c_lobs_batch (q_group q) (q_keys q) (q_args q)) B p sl.
+
+(* the EAGER composition of AggregatePlan(scan): every expression on every pair, every group
+   completed (what this file composed before the evaluation discipline was modelled) *)
+Definition select_agg_row_eager (q : cstmt) (p : Group.plan (F fo)) (sl : list (option kvpair))
+  : res (list (list gvalue)) :=
+  do obs <- drain_row (sel_frow fo re_match (q_where q)) (c_obs_row (q_group q) (q_keys q) (q_args q)) sl;
+  of_exec (Aggregate.run_row (fadd fo) (fsub fo) (fmul fo) (fdiv fo) (fltb fo) (a_is0 ag) (f_of_Z fo) (a_to_Z ag)
+                             (f_fmt fo) (a_bits ag) (a_json_f ag) (a_parse ag) (a_json_s ag) true true p obs).
+Definition select_agg_batch_eager (B : nat) (q : cstmt) (p : Group.plan (F fo)) (sl : list (option kvpair))
+  : res (list (list gvalue)) :=
+  do chunks <- drain_batch (filter_batch fo re_match true (q_where q))
+                           (c_obs_batch (q_group q) (q_keys q) (q_args q)) B sl;
+  of_exec (Aggregate.run_batch (fadd fo) (fsub fo) (fmul fo) (fdiv fo) (fltb fo) (a_is0 ag) (f_of_Z fo) (a_to_Z ag)
+                               (f_fmt fo) (a_bits ag) (a_json_f ag) (a_parse ag) (a_json_s ag) true true p B chunks).
 
 End Concrete.
